@@ -32,15 +32,17 @@ theorem kvLines_attrs (o : Opts) (level aligned : Nat) (c : Fields) (d : Fields)
     · exact ih ls h
     · split at h
       · simp at h
-      · obtain ⟨cm, _, h⟩ := bind_ok h
-        obtain ⟨rest, hr, h⟩ := bind_ok h
-        simp only [pure, Except.pure] at h
-        injection h with h; subst h
-        intro l hl
-        simp only [List.mem_cons] at hl
-        rcases hl with rfl | hl
-        · exact ⟨rfl, rfl⟩
-        · exact ih rest hr l hl
+      · split at h
+        · simp at h
+        · obtain ⟨cm, _, h⟩ := bind_ok h
+          obtain ⟨rest, hr, h⟩ := bind_ok h
+          simp only [pure, Except.pure] at h
+          injection h with h; subst h
+          intro l hl
+          simp only [List.mem_cons] at hl
+          rcases hl with rfl | hl
+          · exact ⟨rfl, rfl⟩
+          · exact ih rest hr l hl
 
 theorem keyDict_bal (o : Opts) (key : Str) (level : Nat) (v : J) (ls : List Line)
     (h : keyDict o key level v = .ok ls) : Bal o (level + 1) ls := by
